@@ -3,7 +3,7 @@ from common import T_COMMON
 CFG = dict(
     gen=[dict(spec="transform.json", out="Transform.lean")],
     theorems=["unweld_spec", "unweld_idem", "removeUnreferenced_spec", "removeUnreferenced_allReferenced", "filterAttr_allReferenced", "flip_spec", "flip_flip", "flip_rejects",
-              "toPointCloud_spec", "split_single", "split_rejects_non_triangle", "weld_corners", "weld_representative", "weld_survivors", "append_spec", "append_rejects", "filterAttr_spec", "crop_spec", "removeNullFaces_spec", "setAttr_spec", "modifyAttr_spec", "mapAttr_spec", "modifyAttr_rejects",
+              "toPointCloud_spec", "split_single", "split_rejects_non_triangle", "weld_corners", "weld_representative", "weld_survivors", "append_spec", "append_rejects", "filterAttr_spec", "crop_spec", "removeNullFaces_spec", "filterAttr_rejects", "crop_rejects", "removeNullFaces_rejects", "weld_rejects", "setAttr_spec", "modifyAttr_spec", "mapAttr_spec", "modifyAttr_rejects",
               "translate_spec", "scaleAbout_spec", "scaleMesh_spec", "rotate_spec", "applyTRS_spec", "center_spec",
               "normalize_spec", "laplacian_frame", "smoothNormals_frame", "flatNormals_frame"],
     streams=[dict(name="c03", n=dict(quick=400, thorough=40000),
